@@ -175,6 +175,33 @@ Theorem C16_every_acquired_holds_a_token :
 Proof. exact server_client_bound. Qed.
 Print Assumptions C16_every_acquired_holds_a_token.
 
+(* Waiting is not a way to a process.  A process is started only by a request that HOLDS a token (and starting it
+   moves no token); a request comes to hold a token only by receiving it from its one-shot slot; a token gets into a
+   slot only by the helper's hand-over to the head of the queue.  There is no transition by which a request that has
+   merely waited (however long) starts a process or obtains an `Acquired`: in the source, `AsyncCommand::spawn` obtains
+   its `Acquired` through the unconditional `Client::acquire()`, and the only `Acquired` built without a token is the
+   one of the inherited-jobserver branch (side conditions regenerated by translator/c16_acquire.py, Gen/C16Acquire_ok.v). *)
+Theorem C16_start_needs_token :
+  forall (s : st) (r : rid) (s' : st),
+  step s (Start r) = Some s' ->
+  mem r (held s) = true /\ pool s' = pool s /\ in_hand_off s' = in_hand_off s /\ holding s' = holding s.
+Proof. exact start_needs_token. Qed.
+Print Assumptions C16_start_needs_token.
+
+Theorem C16_token_only_by_receive :
+  forall (s : st) (e : event) (s' : st) (x : rid),
+  step s e = Some s' -> mem x (held s') = true ->
+  mem x (held s) = true \/ (e = Receive x /\ mem x (slots s) = true).
+Proof. exact token_only_by_receive. Qed.
+Print Assumptions C16_token_only_by_receive.
+
+Theorem C16_slot_only_by_hand_over :
+  forall (s : st) (e : event) (s' : st) (x : rid),
+  step s e = Some s' -> mem x (slots s') = true ->
+  mem x (slots s) = true \/ (e = Deliver /\ hand s = true /\ exists q, queue s = x :: q).
+Proof. exact slot_only_by_deliver. Qed.
+Print Assumptions C16_slot_only_by_hand_over.
+
 (* Start-up.  Whatever jobserver the environment announces (any R,W or none), whatever descriptors are open when
    the server process starts (announced ones inherited or not), if every `discard_inherited_jobserver()` of the
    start-up sequence comes before the server's client is created, the client's token pipe is intact afterwards:
